@@ -66,6 +66,7 @@ class Engine(ExprMixin, CallMixin):
         self.global_facts = []
         _values.PACK["enabled"] = bool(getattr(sidecar, "PACK_KEYS", False))
         _values.PACK["sink"] = self.global_facts if _values.PACK["enabled"] else None
+        _values.NESTED_ORDER["enabled"] = bool(getattr(sidecar, "NESTED_DICT_ORDER", False))
         self.prune = bool(getattr(sidecar, "PRUNE_BRANCHES", False))
         self.spec_env = {}
         self.spec_names = set()
